@@ -168,7 +168,8 @@ def wire_nrd_conf_expected : String := "b.conf.SafeBrowsing"
 theorem wire_nrd_conf_src : wire_nrd_conf = wire_nrd_conf_expected := rfl
 def wrap_calls_expected : String := "filterRequest,Err,ServeDNS,filterResponse,setFilteredResponse,WriteMsg"
 theorem wrap_calls_src : wrap_calls = wrap_calls_expected := rfl
-def wrap_conds_expected : String := "err != nil | err != nil | fctx.isDebug | err != nil | fctx.filteredResponse != fctx.originalResponse"
+/-- (The leading `fctx.isDebug` is the deferred restore of the CHAOS class added by the C07 repair.) -/
+def wrap_conds_expected : String := "fctx.isDebug | err != nil | err != nil | fctx.isDebug | err != nil | fctx.filteredResponse != fctx.originalResponse"
 theorem wrap_conds_src : wrap_conds = wrap_conds_expected := rfl
 def reqinfo_pool_reset_expected : String := "mw.messages"
 theorem reqinfo_pool_reset_src : reqinfo_pool_reset = reqinfo_pool_reset_expected := rfl
